@@ -579,8 +579,12 @@ func randomGroup(r *rand.Rand, i int) vt.Case {
 	if i%4 == 3 {
 		// receiver's expanded-postings cache: matcher lists, their permutations, lists that differ only in
 		// where the type symbol / the '|' between two matchers is read, persisted and head blocks
-		b := []string{"B1", "B2", "HEAD"}[r.Intn(3)]
+		head := r.Intn(3) == 0
 		addRP := func(ms ...any) {
+			b := []string{"B1", "B2"}[r.Intn(2)] // the same selectors for two blocks
+			if head {
+				b = "HEAD"
+			}
 			if b == "HEAD" { // head postings are only cached for selectors with __name__="..."
 				ms = append(ms, map[string]any{"name": str("__name__"), "type": "EQ", "value": str("m")})
 			}
